@@ -151,7 +151,7 @@ fn write_pkg(dir: &Path, rec: &Value) {
 }
 
 fn set_env(rec: &Value) {
-    for k in ["SWAY_VERIF_PASSES", "SWAY_VERIF_ASM_OPTS", "SWAY_FORCE_VERIFY_IR"] {
+    for k in ["SWAY_VERIF_PASSES", "SWAY_VERIF_ASM_OPTS", "SWAY_FORCE_VERIFY_IR", "SWAY_VERIF_SSA_DOMINANCE"] {
         std::env::remove_var(k);
     }
     if let Some(env) = rec.get("env").and_then(|e| e.as_object()) {
